@@ -23,12 +23,12 @@ pub fn prop() -> Prop {
 fn spec() -> Spec {
     Spec {
         kinds: vec![Kind { name: "jacobian", quick: 300_000, thorough: 8_000_000, serial: false }, Kind { name: "shared_history", quick: 20_000, thorough: 500_000, serial: false }],
-        rule: "each case = non-degenerate 6-DOF robot (64 sign patterns, offsets), bare or in a stack of depth 1..3 from Tool/Base/Frame/Parallelogram, with or without joint limits (a share of the joint vectors sits within the differencing step of a limit) x q x epsilon in {1e-7,1e-6,1e-5}; the Jacobian is reconstructed through torques_from_vector(e_k) and compared column by column with the geometric Jacobian of the reference chain (x base, tool lever arm, coupling matrix for parallelograms); velocities reproduce the twist when cond(J) <= 1e6; torques == J^T F; isometry- and vector-based entry points agree. shared_history: 2-3 robots sharing link lengths (other signs / offsets / c4) evaluated at the bit-identical joint vector, step and stack in the order A,B,(C,)A,B,.. on one thread, each judged by its own geometric Jacobian. non-trivial = cond(J) <= 1e6; distinct = hash(robot, stack, q, eps) Workload additions: joint vectors beyond half a turn and with joints resting at exact zeros; isometries handed over with the negated quaternion; kind shared_history (as in the rule). Rounds 7-9: linearity for twists 1e-6..1e-9 times slower; scaled robots and far-away bases.",
+        rule: "each case = non-degenerate 6-DOF robot (64 sign patterns, offsets), bare or in a stack of depth 1..3 from Tool/Base/Frame/Parallelogram, with or without joint limits (a share of the joint vectors sits within the differencing step of a limit) x q x epsilon in {1e-7,1e-6,1e-5}; the Jacobian is reconstructed through torques_from_vector(e_k) and compared column by column with the geometric Jacobian of the reference chain (x base, tool lever arm, coupling matrix for parallelograms); velocities reproduce the twist when cond(J) <= 1e6; torques == J^T F; isometry- and vector-based entry points agree. shared_history: 2-3 robots sharing link lengths (other signs / offsets / c4) evaluated at the bit-identical joint vector, step and stack in the order A,B,(C,)A,B,.. on one thread, each judged by its own geometric Jacobian. non-trivial = cond(J) <= 1e6; distinct = hash(robot, stack, q, eps) Workload additions: joint vectors beyond half a turn and with joints resting at exact zeros; isometries handed over with the negated quaternion; kind shared_history (as in the rule). Rounds 7-9: linearity for twists 1e-6..1e-9 times slower; scaled robots and far-away bases. Round 10: wrenches with exact-zero / whole-number components of either sign.",
         assumptions: vec![
             "|J - J_geo| <= 5*eps*(1+reach) + 4e-15*(1+reach)/eps (forward-difference truncation + rounding)",
             "J*qdot == x within cond(J)*1e-10*(1+|x|) when cond(J) <= 1e6 (SVD computed in the harness)",
         ],
-        minimums: vec![("oracle_evals", 8_000_000, 200_000_000), ("well_conditioned", 250_000, 6_000_000), ("near_limit_cases", 80_000, 2_000_000), ("history.steps", 80_000, 2_000_000)],
+        minimums: vec![("oracle_evals", 8_000_000, 200_000_000), ("well_conditioned", 250_000, 6_000_000), ("near_limit_cases", 80_000, 2_000_000), ("history.steps", 80_000, 2_000_000), ("structured_wrenches", 250_000, 6_000_000)],
     }
 }
 
@@ -186,18 +186,26 @@ fn evaluate(idx: u64, robot: &Robot, layers: &Vec<Layer>, q: &[f64; 6], eps: f64
     let cond = if smin > 0.0 { smax / smin } else { f64::INFINITY };
     // torques == J^T F
     let f = Vector6::from_fn(|i, _| rng.range(-10.0, 10.0));
-    let t = jac.torques_from_vector(&f);
-    let mut t_ok = true;
-    for i in 0..6 {
-        let want: f64 = (0..6).map(|k| j[k][i] * f[k]).sum();
-        if (t[i] - want).abs() > 1e-11 * (1.0 + want.abs() + smax * 10.0) {
-            t_ok = false;
+    // (besides the random wrench: structured wrenches whose components are exact zeros of either sign, whole numbers of
+    // either sign or single random values - a pure moment about a negative axis, a force with a one-axis moment, ...)
+    let structured = Vector6::from_fn(|_, _| match rng.usize(6) { 0 | 1 => 0.0, 2 => -0.0, 3 => -(rng.int(1, 3) as f64), 4 => rng.int(1, 3) as f64, _ => rng.range(-10.0, 10.0) });
+    for (wi, w) in [f, structured].iter().enumerate() {
+        let t = jac.torques_from_vector(w);
+        let mut t_ok = true;
+        for i in 0..6 {
+            let want: f64 = (0..6).map(|k| j[k][i] * w[k]).sum();
+            if !((t[i] - want).abs() <= 1e-11 * (1.0 + want.abs() + smax * 10.0)) {
+                t_ok = false;
+            }
         }
-    }
-    if !t_ok {
-        mon.violation("torques-not-transpose", "torques_from_vector is not J^T F", detail("torques", json!({"F": jf(f.as_slice()), "torques": jf(&t)})));
-    } else {
-        mon.held();
+        if wi == 1 {
+            mon.count("structured_wrenches");
+        }
+        if !t_ok {
+            mon.violation(if wi == 0 { "torques-not-transpose" } else { "torques-not-transpose:structured-wrench" }, "torques_from_vector is not J^T F", detail("torques", json!({"F": jf(w.as_slice()), "torques": jf(&t)})));
+        } else {
+            mon.held();
+        }
     }
     // isometry entry points agree with the vector ones
     let ax = [rng.range(-1.0, 1.0), rng.range(-1.0, 1.0), rng.range(-1.0, 1.0)];
